@@ -208,8 +208,12 @@ def check(ctx):
         if r:
             oracle_bad.append((cid, ops, r))
     reported = set()
-    for cid, ops, m, g in mism[:50]:
-        r = oracle_check(ops, g or "")
+    # look through the disagreements for ones on which the API itself contradicts the integer set
+    judged = []
+    for cid, ops, m, g in mism[:4000]:
+        judged.append((cid, ops, m, g, oracle_check(ops, g or "")))
+    judged.sort(key=lambda x: (x[4] is None, len(x[1])))
+    for cid, ops, m, g, r in judged:
         key = "set:" + ops
         if ctx.known(key):
             ctx.known_lines.append("KNOWN-FINDING: property=C16 %s (%s)" % (ctx.known(key)["what"], ops))
